@@ -1,6 +1,6 @@
 (** C05 - Bin-covering results are valid covers that waste less than one bin.
     Statements only; proofs in Proofs/CoveringProofs.v. *)
-From Prtpy Require Import Base.Prelude Model.Binner Model.Covering Spec.Partition Proofs.CoveringProofs.
+From Prtpy Require Import Base.Prelude Model.Binner Model.Covering Spec.Partition Proofs.CoveringProofs Oracle.Checkers Proofs.CheckersSpec.
 
 (** decreasing: every bin reaches the bin size, items used at most once, the unused items total less than one bin *)
 Theorem C05_dec_cover : forall (A : Type) (valueof : A -> Z) (C : Z) (items : list A),
@@ -23,3 +23,10 @@ Theorem C05_tq_cover : forall (A : Type) (valueof : A -> Z) (C : Z) (items : lis
 Proof. exact @tq_cover. Qed.
 Print Assumptions C05_tq_cover.
 
+(** the boolean checker that judges the IMPLEMENTATION's covers (extracted) answers Some r exactly when the bins are a cover in the sense of
+    the specification and the unused items total r *)
+Theorem C05_checker_is_cover : forall (C : Z) (items : list citem) (b : bins citem) (r : Z),
+  names_det (contents b ++ items) ->
+  is_cover_b C items b = Some r <-> (exists rest : list citem, is_cover cval C items b rest /\ zsum (map cval rest) = r).
+Proof. exact is_cover_b_iff. Qed.
+Print Assumptions C05_checker_is_cover.
